@@ -65,8 +65,12 @@ EmptyState == [now |-> 0]
 (* exact successor under the named action (open system) *)
 
 \* module-owned effects of the environment's own steps, through the staking hooks
+\* x/staking calls AfterValidatorBonded when a validator enters the bonded set and AfterValidatorBeginUnbonding when it
+\* leaves it; unbonding -> unbonded calls no hook of this module
 StatusChanged(pre, post) ==
-  \E v \in DOMAIN pre.env.vals : v \in DOMAIN post.env.vals /\ pre.env.vals[v].status # post.env.vals[v].status
+  \E v \in DOMAIN pre.env.vals : v \in DOMAIN post.env.vals
+       /\ pre.env.vals[v].status # post.env.vals[v].status
+       /\ "bonded" \in {pre.env.vals[v].status, post.env.vals[v].status}
 RemovedVals(pre, post) == {v \in DOMAIN pre.env.vals : pre.env.vals[v].status # "removed" /\ post.env.vals[v].status = "removed"}
 EnvHooks(pre, post, raise) ==
   LET gone == RemovedVals(pre, post)
